@@ -40,8 +40,8 @@ PROPS["C03"] = {
                    "aggregator output channel (mocked clock). Names are printable ASCII without whitespace."),
     "technique": "property-based testing (rapid): reference-model oracle + metamorphic value/timestamp variation + stateful cache histories",
     "assumptions": ["Go's regexp package is the reference RE2 implementation", "names are non-empty printable ASCII without whitespace"],
-    "quick": [R("TestPropMatcher", 40000), R("TestPropMatcherRegexOnly", 40000), R("TestPropPlaces", 4000), R("TestPropAggCache", 1500)],
-    "thorough": [R("TestPropMatcher", 400000, shards=5, timeout=1500), R("TestPropMatcherRegexOnly", 400000, shards=4, timeout=1500),
+    "quick": [R("TestPropMatcher", 40000), R("TestPropMatcherRegexOnly", 40000), R("TestPropPlaces", 4000), R("TestPropAggCache", 1500), R("TestPropManyNamesAggregation", 4)],
+    "thorough": [R("TestPropManyNamesAggregation", 30, shards=2, timeout=1500), R("TestPropMatcher", 400000, shards=5, timeout=1500), R("TestPropMatcherRegexOnly", 400000, shards=4, timeout=1500),
                  R("TestPropPlaces", 40000, shards=5, timeout=1500), R("TestPropAggCache", 15000, shards=2, timeout=1500),
                  F("FuzzMatcher", "120s")],
 }
@@ -249,8 +249,8 @@ PROPS["C04"] = {
     "level_note": "A name that arrived with one leading dot may be forwarded with or without it (the statement does not fix that). Go regexp Expand is trusted for ${n} expansion.",
     "technique": "property-based testing (rapid): reference rewriter model, round-trip through a loopback endpoint, buffer-scribbling metamorphic check",
     "assumptions": ["loopback TCP delivers bytes in order", "sentinel line marks completion (single FIFO writer per connection)"],
-    "quick": [R("TestPropForwardedLine", 1500), R("TestPropRewriter", 20000)],
-    "thorough": [R("TestPropForwardedLine", 12000, shards=12, timeout=2400), R("TestPropRewriter", 300000, shards=4, timeout=2400)],
+    "quick": [R("TestPropForwardedLine", 1500), R("TestPropRewriter", 20000), R("TestPropManyNamesRewriter", 4)],
+    "thorough": [R("TestPropForwardedLine", 12000, shards=12, timeout=2400), R("TestPropRewriter", 300000, shards=4, timeout=2400), R("TestPropManyNamesRewriter", 30, shards=2, timeout=2400)],
 }
 
 PROPS["C11"] = {
